@@ -1,3 +1,4 @@
+import Ebu.Props.C03
 import Ebu.Spec.Conc
 import Ebu.Proofs.Conc
 /-!
@@ -31,5 +32,12 @@ theorem cancelled_not_consumed (sh : Shared) (th : Thread) (r : Reg) (f : Frame)
     (hstep : step sh th = some o) (hno : r.rid ∉ sh.executed) :
     o.sh.executed = sh.executed :=
   Ebu.Conc.cancelled_not_consumed sh th r f fs o hpc hfr hdead hstep hno
+
+/-- the once claim is an atomic compare-and-swap on `executed` (the only location the CURRENT source accesses
+atomically, and it does so everywhere), and the retirement of a fired once handler – like every other registry update –
+happens inside ONE write-locked critical section, so a concurrent Unsubscribe cannot write a spent handler back -/
+theorem once_claim_and_retirement_atomic : Ebu.Locks.Discipline Ebu.Generated.accessFacts = true ∧
+    Ebu.Locks.RegistryOpsAtomic Ebu.Generated.accessFacts = true :=
+  ⟨Ebu.Props.C03.facts_discipline, Ebu.Props.C03.facts_registry_ops_atomic⟩
 
 end Ebu.Props.C04
